@@ -187,23 +187,13 @@ func knownUUIDs(doc json.RawMessage, scripts []Script) map[string]bool {
 
 func run(c Case) *harn.Failure {
 	known := knownUUIDs(c.Assets, c.Scripts)
-	// solo reference: each script alone on its own fresh assets
-	solo := make([]string, len(c.Scripts))
-	for i, sc := range c.Scripts {
-		sa, err := scen.LoadAssets(c.Assets)
-		if err != nil {
-			return harn.Failf("harness-setup", "assets do not load: %v", err)
-		}
-		out, err := drive(sa, sc, known)
-		if err != nil {
-			return harn.Failf("harness-setup", "script %d does not run alone: %v", i, err)
-		}
-		solo[i] = out
-	}
 	rounds := c.Rounds
 	if rounds <= 0 {
 		rounds = 1
 	}
+	// the concurrent rounds come FIRST: process-wide lazily initialised state (package-level singletons, caches) must be
+	// cold when the goroutines start, otherwise a solo warm-up would hide unsynchronised first use
+	all := make([][]string, rounds)
 	for round := 0; round < rounds; round++ {
 		sa, err := scen.LoadAssets(c.Assets) // cold flow cache every round
 		if err != nil {
@@ -225,10 +215,28 @@ func run(c Case) *harn.Failure {
 		wg.Wait()
 		for i := range outs {
 			if errs[i] != nil {
-				return harn.Failf("concurrent-run-completes", "round %d: goroutine %d failed where it succeeds alone: %v", round, i, errs[i])
+				// decide below whether it also fails alone
+				outs[i] = "ERROR: " + errs[i].Error()
 			}
-			if outs[i] != solo[i] {
-				return harn.Failf("same-result-as-alone", "round %d: goroutine %d produced a different result than the same script run alone: %s", round, i, firstDiff(solo[i], outs[i]))
+		}
+		all[round] = outs
+	}
+	// solo reference: each script alone on its own fresh assets
+	for i, sc := range c.Scripts {
+		sa, err := scen.LoadAssets(c.Assets)
+		if err != nil {
+			return harn.Failf("harness-setup", "assets do not load: %v", err)
+		}
+		solo, err := drive(sa, sc, known)
+		if err != nil {
+			return harn.Failf("harness-setup", "script %d does not run alone: %v", i, err)
+		}
+		for round := range all {
+			if strings.HasPrefix(all[round][i], "ERROR: ") {
+				return harn.Failf("concurrent-run-completes", "round %d: goroutine %d failed where it succeeds alone: %s", round, i, all[round][i])
+			}
+			if all[round][i] != solo {
+				return harn.Failf("same-result-as-alone", "round %d: goroutine %d produced a different result than the same script run alone: %s", round, i, firstDiff(solo, all[round][i]))
 			}
 		}
 	}
@@ -264,6 +272,7 @@ var prop = harn.Register(&harn.Prop[Case]{Name: "TestConcurrentSessions", Run: r
 
 var opts = scen.GenOpts{
 	World: world.Opts{MaxFlows: 3, MaxNodes: 4, Languages: []string{"fra", "spa"}, QueryGroups: true, WebhookRefs: true, NoRandom: true,
+		Templates: []string{"@contact.groups", "@(contact.groups[0].name)", "@(json(contact.groups))", "@(foreach(contact.groups, (g) => g.name))", "@contact.fields", "@(json(globals))", "@globals", "@(json(contact))"},
 		// no rand()/now()-dependent or clock-dependent templates: outputs must be comparable modulo UUIDs and timestamps
 		Actions: []string{"send_msg", "set_run_result", "set_contact_name", "set_contact_field", "set_contact_language", "add_contact_groups", "remove_contact_groups", "enter_flow", "call_webhook", "add_contact_urn", "open_ticket", "set_contact_status"}},
 	StaleGroups: true,
